@@ -83,8 +83,15 @@ def _fe(p=None, q=None):
   return (p, q)
 
 
+@gin.configurable('fk')
+def _fk(**kw):
+  return kw
+
+
 # non-ASCII identifiers are legal names too (column arithmetic in the raw-text re-check)
-SELECTORS = {'fé': ('fé', 'pq'), 'fa': ('fa', 'pqr'), 'sub.fb': ('m1.sub.fb', 'pq'), 'm1.sub.fb': ('m1.sub.fb', 'pq'),
+# fk takes **kwargs: any identifier is a parameter name, also Python's and Gin's keywords
+KW_PARAMS = ['class', 'for', 'async', 'lambda', 'import', 'from', 'include', 'None', 'is']
+SELECTORS = {'fk': ('fk', KW_PARAMS), 'fé': ('fé', 'pq'), 'fa': ('fa', 'pqr'), 'sub.fb': ('m1.sub.fb', 'pq'), 'm1.sub.fb': ('m1.sub.fb', 'pq'),
              'm2.fb': ('m2.fb', 'pq'), 'K': ('m1.K', 'pq'), 'm1.K': ('m1.K', 'pq')}
 SCOPES = ['', '', 's', 's/t', 'S', 'a/b/c', 'sé/t']
 # macro names equal to the statement keywords are legal ("from = 1" is a macro definition)
@@ -223,7 +230,13 @@ def check_layout(case):
     for text in (ta, tb):
       gin.clear_config()
       try:
-        gin.parse_config(text)
+        if text is tb and case.get('skip_b'):
+          # every name in the text is known: skip_unknown (in any form) changes nothing
+          su = {1: True, 2: ['nosuch_cfg'], 3: ('fa', 'nosuch')}[case['skip_b']]
+          gin.parse_config(text, skip_unknown=su)
+          labels.add('layout-b-parsed-with-skip_unknown')
+        else:
+          gin.parse_config(text)
       except Exception as e:  # pylint: disable=broad-except
         raise Violation('valid-config-rejected', f'{type(e).__name__}: {e}\n--- text:\n{text}')
       outs.append(gin.config_str())
@@ -454,7 +467,8 @@ def _stmts(draw, allow_include=True, min_size=1, max_size=10):
 def _layout_case(draw):
   inc = draw(st.integers(0, 3)) == 0
   return {'kind': 'layout', 'stmts': draw(_stmts(allow_include=inc)),
-          'tapeA': draw(S.tapes()), 'tapeB': draw(S.tapes())}
+          'tapeA': draw(S.tapes()), 'tapeB': draw(S.tapes()),
+          'skip_b': draw(st.sampled_from([0, 0, 1, 2, 3]))}
 
 
 WS = [' ', '\t', ' \\\n', '  ']
